@@ -106,6 +106,7 @@ type v09World struct {
 	cache   *ristretto.Cache[[]byte, any]
 	topo    uint64
 	signed  map[string]*v09Signed
+	chains  map[crypto.Hash]*Chain // chain objects built since the last membership record
 }
 
 type v09HarnessError struct{ msg string }
@@ -335,6 +336,7 @@ func (w *v09World) appendRecord(m *v09Member, st string, tick int64) (string, st
 		w.topo++
 		return w.node.LoadConsensusNodes()
 	})
+	w.chains = nil
 	if res == "ok" {
 		m.lastTx = ver.PayloadHash()
 	}
@@ -507,7 +509,13 @@ func (w *v09World) query(st *v09Step) vM {
 	var keyIds []crypto.Hash
 	thr := 0
 	res, detail := vCall(func() error {
-		chain = w.node.buildChain(chainId)
+		if w.chains == nil {
+			w.chains = map[crypto.Hash]*Chain{}
+		}
+		if chain = w.chains[chainId]; chain == nil {
+			chain = w.node.buildChain(chainId)
+			w.chains[chainId] = chain
+		}
 		keyIds, _ = chain.ConsensusKeys(st.Round, ts)
 		thr = w.node.ConsensusThreshold(ts, true)
 		return nil
